@@ -143,6 +143,7 @@ class Checker:
     def finish(self):
         wall = time.time() - self.t0
         if run.RETRIES: self.extra['runs_repeated_after_timeout'] = [list(x) for x in run.RETRIES[:20]]      # see run.run_impl (rusty-leveldb iterator spin)
+        self.extra['rotations'] = dict(runs_as_unprivileged_user=run.ROT['as_user'], runs_after_prior_run_in_dump_folder=run.ROT['prior'], unprivileged_user_available=(run._DROP.get(65534)))
         failed_obl = [(n, d) for n, ok, d in self.obligations if not ok]
         lines = []
         for fid, text in self.known: lines.append('KNOWN-FINDING: property=%s %s' % (self.prop, text))
@@ -218,18 +219,22 @@ def strip_comments(src):
             i += 1
     return ''.join(out)
 
+PRIOR = {'bitcoin': 'testnet3', 'testnet3': 'bitcoin', 'litecoin': 'dogecoin', 'dogecoin': 'litecoin', 'namecoin': 'dogecoin'}
+
 def compare_cases(ck, cases, cbs_of, want=None, release=False, nontrivial=None, sample=None, workers=12):
     """Standard exploration step: model on all cases (sharded), implementation per case (thread pool), record disagreements.
     cbs_of(case) -> list of callbacks; nontrivial(case, model) -> key or None."""
     from concurrent.futures import ThreadPoolExecutor
     allw = ['csv', 'unspent', 'balances', 'opreturn', 'stats', 'opens']
-    # generic rotation of dimensions no property depends on, so that every property's cases also run under them: verbosity (default, -v, -vv) and an XOR-obfuscated
+    # generic rotation of dimensions no property depends on, so that every property's cases also run under them: verbosity (default, -v, -vv), an earlier run's results in the dump folder, an unprivileged user, and an XOR-obfuscated
     # directory (the model un-XORs like the code; C11 proves and tests the equivalence itself). A module opts out per case with meta['fixed'] = True.
     rot = random.Random(ck.seed * 7919 + len(cases))
     for i, c in enumerate(cases):
         if c.meta.get('fixed'): continue
         if not hasattr(c, 'verbosity') and i % 4 >= 2: c.verbosity = i % 4 - 1
         if c.xor is None and i % 7 == 5: c.xor = bytes(rot.randrange(1, 256) for _ in range(rot.choice([8, 8, 3, 2])))
+        if i % 5 == 3 and not hasattr(c, 'prior_coin'): c.prior_coin = PRIOR.get(c.coin, 'litecoin')      # an earlier run with another coin left its results in the dump folder
+        if i % 6 == 4 and not hasattr(c, 'as_user'): c.as_user = 65534                                    # the parser runs as a user who can read but does not own the blk files
     models = run.run_model(ck.tools, cases, (lambda c: [w for w in allw if w in cbs_of(c) or w == 'opens']) if want is None else want)
     def one(c):
         try:
